@@ -96,14 +96,24 @@ def adjoint(spec, xs, ws, honest=False):
 
 class Fx(pym.Module):
     """Module with the response spec.f and the (possibly deliberately wrong) sensitivity adjoint(spec, ...)"""
-    def _prepare(self, spec=None):
+    def _prepare(self, spec=None, reuse_out=False):
         self.spec = spec
         self.ncalls = 0
+        self.reuse_out = reuse_out
+        self.buf = {}
 
     def _response(self, *xs):
         self.xs = [x.copy() if hasattr(x, 'copy') else x for x in xs]
         self.ncalls += 1
         ys = list(self.spec.f(*[_dense(x) for x in xs]))
+        if self.reuse_out:   # a module that keeps its output arrays and overwrites them in place at every response
+            for k, y in enumerate(ys):
+                b = self.buf.get(k)
+                if isinstance(y, np.ndarray) and y.ndim > 0 and b is not None and b.shape == y.shape and b.dtype == y.dtype:
+                    b[...] = y
+                    ys[k] = b
+                elif isinstance(y, np.ndarray) and y.ndim > 0:
+                    self.buf[k] = y
         return [sp.csr_matrix(y) if k in self.spec.sparse_out else y for k, y in enumerate(ys)]
 
     def _sensitivity(self, *ws):
@@ -358,8 +368,8 @@ def reference_trace(c, in_sel, out_sel, seeds, dx, relative, keep_zero):
     return out
 
 
-def _same(a, b):
-    return abs(a - b) <= TOL * max(1.0, abs(b))
+def _same(a, b, tol=TOL):
+    return abs(a - b) <= tol * max(1.0, abs(b))
 
 
 def _state_image(v):
@@ -369,12 +379,15 @@ def _state_image(v):
 
 
 def run_case(case_id, wrong=None, dx_exp=20, relative=False, seedmode='use_df', keep_zero=True, verbose=True, pollute=False, ncalls=1, rngseed=0, tol=1e-3,
-             bare=False, preresponse=False):
+             bare=False, preresponse=False, inexact=False, reuse_out=False, keep_alloc=False):
     """Build the fixture, call pym.finite_difference (ncalls times on the same objects), compare everything that was reported through test_fn and
     printed with the reference, and check the state/sensitivity of every signal afterwards.  Returns a list of (code, message)."""
     probs = []
     c = case_def(case_id)
     specs = c['specs']
+    if inexact:   # values and step that are not exactly representable: x + h - h != x, so only an exact restore passes
+        c['sources'] = {n: (v if np.asarray(v).dtype.kind in 'iu' else v * 1.1) for n, v in c['sources'].items()}
+    tol_fd = 1e-5 if inexact else TOL   # round-off of (F(x+h)-F(x))/h with inexact data: ~ eps*|F|/h
     if wrong is not None:   # (kind, module index, input index)
         specs[wrong[1]].wrong = (wrong[0], wrong[2])
     names = []
@@ -383,7 +396,10 @@ def run_case(case_id, wrong=None, dx_exp=20, relative=False, seedmode='use_df', 
     originals = {n: _cp(v) for n, v in c['sources'].items()}
     handed = {n: _cp(v) for n, v in c['sources'].items()}   # the objects the caller hands to the signals (and keeps)
     sigs = {n: SpySignal(n, handed.get(n)) for n in names}
-    mods = [Fx([sigs[n] for n in s.ins], [sigs[n] for n in s.outs], spec=s) for s in specs]
+    mods = [Fx([sigs[n] for n in s.ins], [sigs[n] for n in s.outs], spec=s, reuse_out=reuse_out) for s in specs]
+    if keep_alloc:   # input signals whose sensitivity allocation is kept: reset() zeroes it in place instead of dropping it
+        for n in c['sources']:
+            sigs[n].keep_alloc = True
     blk = pym.Network(mods) if c['network'] else mods[0]
 
     def pick(sel):
@@ -393,7 +409,7 @@ def run_case(case_id, wrong=None, dx_exp=20, relative=False, seedmode='use_df', 
         return lst[0] if (bare and len(lst) == 1) else lst
     in_sel = c['fromsig'] if c['fromsig'] is not None else [(s.tag, None) for s in blk.sig_in]
     out_sel = c['tosig'] if c['tosig'] is not None else [(s.tag, None) for s in blk.sig_out]
-    dx = 2.0 ** -dx_exp
+    dx = 2.0 ** -dx_exp * (1.1 if inexact else 1.0)
     if c['network']:   # signals of the modules between the first consumer of an input and the last producer of an output
         i0 = min(i for i, s in enumerate(specs) if any(n in s.ins for n, _ in in_sel))
         i1 = max(i for i, s in enumerate(specs) if any(n in s.outs for n, _ in out_sel))
@@ -421,7 +437,7 @@ def run_case(case_id, wrong=None, dx_exp=20, relative=False, seedmode='use_df', 
         if pollute:   # sensitivities left behind by the caller on the signals of the block
             for n in inside:
                 st = sigs[n].state
-                sigs[n].sensitivity = 7.0 if st is None or not isinstance(_dense(st), np.ndarray) else np.full(np.shape(_dense(st)), 7.0)
+                sigs[n].sensitivity = 7.0 if st is None or not isinstance(_dense(st), np.ndarray) else np.full(np.shape(_dense(st)), 7.0, dtype=np.result_type(_dense(st).dtype, float))
         for n in names:
             sigs[n].log.clear()
         rec = []
@@ -482,14 +498,14 @@ def run_case(case_id, wrong=None, dx_exp=20, relative=False, seedmode='use_df', 
         unmatched = list(range(len(got)))
         for j, (p, x0, an_mod, an_true, fd) in enumerate(ref):
             def ok(g):
-                return complex(g[0]) == complex(x0) and g[1] == dx and _same(g[2], an_mod) and _same(g[3], fd)
+                return complex(g[0]) == complex(x0) and g[1] == dx and _same(g[2], an_mod) and _same(g[3], fd, tol_fd)
             if contiguous:
                 hit = j if j < len(got) and ok(got[j]) else None
             else:   # nditer walks a non-C-contiguous array in memory order: every entry once, any order
                 hit = next((u for u in unmatched if ok(got[u])), None)
             if hit is None:
                 near = got[j] if j < len(got) else None
-                what = 'analytical' if near is not None and not _same(near[2], an_mod) else ('numerical' if near is not None and not _same(near[3], fd) else 'entry')
+                what = 'analytical' if near is not None and not _same(near[2], an_mod) else ('numerical' if near is not None and not _same(near[3], fd, tol_fd) else 'entry')
                 probs.append((what, f'{lab}pair {j} (input {in_sel[p][0]}, x0={x0}): reported {near}, expected (x0={x0}, dx={dx}, an={an_mod!r}, fd={fd!r})'))
                 if len(probs) > 6:
                     break
@@ -503,10 +519,11 @@ def run_case(case_id, wrong=None, dx_exp=20, relative=False, seedmode='use_df', 
             for (p, x0, an_mod, an_true, fd), r6 in zip(ref, ref6):
                 sf = abs(x0) if (relative and abs(x0) != 0) else 1.0
                 K = 2.0 * abs(r6[4] - an_true) / (2.0 ** -6 * sf)
-                g = next(gg for gg in got if complex(gg[0]) == complex(x0) and _same(gg[2], an_mod) and _same(gg[3], fd))
-                if not abs(g[3] - an_true) <= K * dx * sf + 1e-11:
+                g = next(gg for gg in got if complex(gg[0]) == complex(x0) and _same(gg[2], an_mod) and _same(gg[3], fd, tol_fd))
+                slack = 1e-11 + (tol_fd * max(1.0, abs(an_true)) if inexact else 0.0)
+                if not abs(g[3] - an_true) <= K * dx * sf + slack:
                     probs.append(('order', f'{lab}numerical value {g[3]!r} differs from the true derivative {an_true!r} by more than O(dx) (K={K}, dx={dx})'))
-                if wrong is None and not abs(g[2] - g[3]) <= K * dx * sf + 1e-11:
+                if wrong is None and not abs(g[2] - g[3]) <= K * dx * sf + slack:
                     probs.append(('match', f'{lab}correct module reported with the non-matching pair an={g[2]!r} fd={g[3]!r}'))
             if wrong is not None:
                 expect_bad = [j for j, rr in enumerate(ref) if abs(rr[2] - rr[3]) > 0.01]
@@ -547,7 +564,7 @@ def run_case(case_id, wrong=None, dx_exp=20, relative=False, seedmode='use_df', 
         for n, _ in in_sel:
             if n not in originals and _state_image(sigs[n].state) != _state_image(ref0[n]):
                 probs.append(('restore', f'{lab}state of the intermediate input {n} after the call is {sigs[n].state!r}, its unperturbed value is {ref0[n]!r}'))
-        left = [n for n in names if sigs[n].sensitivity is not None]
+        left = [n for n in names if sigs[n].sensitivity is not None and not (keep_alloc and n in c['sources'] and not np.any(np.asarray(sigs[n].sensitivity) != 0))]
         if left:
             probs.append(('sens-left', f'{lab}sensitivity still set after the call on signals {left}'))
         if probs:
